@@ -25,6 +25,10 @@ def one(args):
     sid, suite = args
     src = f'/verif/seeded/{sid}'
     pid = sid.split('-')[0]
+    try:        # a change whose trigger belongs to another property's alphabet (e.g. a thread schedule) names the check that reports it
+        pid = json.load(open(f'{src}/meta.json')).get('detected_with', pid)
+    except Exception:
+        pass
     wt = tempfile.mkdtemp(prefix='rswt.', dir='/tmp')
     res = dict(seed=sid)
     try:
